@@ -377,7 +377,8 @@ func (cc *connectUnaryClientConn) validateResponse(response *http.Response) *Err
 		cc.responseTrailer[strings.TrimPrefix(k, connectUnaryTrailerPrefix)] = v
 	}
 	compression := response.Header.Get(connectUnaryHeaderCompression)
-	if compression != "" &&
+	if response.StatusCode == http.StatusOK &&
+		compression != "" &&
 		compression != compressionIdentity &&
 		!cc.compressionPools.Contains(compression) {
 		return errorf(
